@@ -562,6 +562,11 @@ class Interp:
             return self._isinstance(exc, ref)
         return self.isinstance_fn(exc, ref) or (isinstance(exc, Ref) and self._isinstance(exc, ref))
 
+    def _exc_is(self, exc, cref):
+        if self.isinstance_fn is None or (isinstance(exc, Ref) and exc.ref.startswith('builtin:')):
+            return self._isinstance(exc, cref)
+        return self.isinstance_fn(exc, cref) or (isinstance(exc, Ref) and self._isinstance(exc, cref))
+
     def ev_exc(self, node):
         if node is None:
             handling = getattr(self, '_handling', [])
@@ -570,6 +575,8 @@ class Interp:
             return self.ev_exc(node.func.value)
         if isinstance(node, ast.Call):
             ref = self.a.res.resolve(node.func, self.m)
+            if ref and not (ref.startswith('builtin:') or self._is_pkg_class(ref) or ref.startswith('ext:')):
+                ref = None          # a call of a function that builds the exception: its value is what is raised
             if ref:
                 if node.args and not node.keywords and ref.startswith('builtin:'):
                     # the message of a Python-level exception: kept as text, parts that are not known read '?'
@@ -610,6 +617,8 @@ class Interp:
                 self.world.classattrs[(base.ref, t.attr)] = val
             elif isinstance(base, PyModel):
                 setattr(base, t.attr, val)
+            elif isinstance(base, (Closure, LambdaVal, RawFunc)):
+                base.__dict__.setdefault('attrs', {})[t.attr] = val      # function attributes (__name__, __doc__, ...) carry no behaviour
             elif isinstance(base, _decimal.Context) and _concrete(val):
                 try:
                     setattr(base, t.attr, val)
@@ -732,6 +741,18 @@ class Interp:
                 return Opaque('exception args')
             if isinstance(base, Ref) and n.attr == '__name__' and base.ref.startswith(('pkg:', 'builtin:')):
                 return base.ref.rpartition(':')[2].rpartition('.')[2]
+            if isinstance(base, (Closure, RawFunc, LambdaVal)):
+                attrs_ = base.__dict__.get('attrs', {})
+                if n.attr in attrs_:
+                    return attrs_[n.attr]
+                if n.attr in ('__name__', '__qualname__'):
+                    return base.fnode.name if hasattr(base, 'fnode') else '<lambda>'
+                if n.attr == '__doc__':
+                    return ast.get_docstring(base.fnode) if hasattr(base, 'fnode') else None
+                if n.attr == '__wrapped__':
+                    raise ExcRaised(Ref('builtin:AttributeError'))
+            if isinstance(base, Ref) and n.attr in ('__name__', '__qualname__') and base.ref.startswith('ext:'):
+                return base.ref.rpartition('.')[2]
             if isinstance(base, Obj):
                 if n.attr in base.fields:
                     return base.fields[n.attr]
@@ -971,6 +992,9 @@ class Interp:
                 cm_, meth_ = self._find_method(recv.f['cls'], fn.attr)
                 if meth_ is not None:
                     return self._call_method(recv, recv.f['cls'], cm_, meth_, args, kwargs)
+                made_ = self._class_callable(recv.f['cls'], fn.attr)
+                if made_ is not None:
+                    return self.invoke(made_, [recv] + list(args), kwargs)
                 if '__native__' in recv.f and hasattr(recv.f['__native__'], fn.attr) and not fn.attr.startswith('__'):
                     # instance of a subclass of a builtin container: the inherited builtin method on the stored items
                     try:
@@ -1087,6 +1111,13 @@ class Interp:
                 if getattr(model_, 'wants_interp', False):
                     return model_(self, *args, **kwargs)     # a model expressed in terms of the interpreter's own operations
                 return model_(*args, **kwargs)
+        done_, res_ = self._unbound_builtin(ref, args, kwargs)
+        if done_:
+            return res_
+        if ref == 'ext:contextlib.suppress' and ref not in self.call_models and not kwargs:
+            return _Suppress(self._class_refs(tuple(args)) if args else ())
+        if ref == 'ext:contextlib.nullcontext' and ref not in self.call_models and len(args) <= 1:
+            return _Suppress(())        # enters, runs the body, swallows nothing
         if ref in ('ext:copy.copy', 'ext:copy.deepcopy') and ref not in self.call_models and len(args) == 1:
             return _copy_value(self, args[0], deep=ref.endswith('deepcopy'), memo={})
         if ref == 'ext:collections.defaultdict' and ref not in self.call_models and len(args) <= 1 and not kwargs:
@@ -1282,6 +1313,10 @@ class Interp:
                     refs = self.a.res.resolve(cls, self.m)
                 else:
                     refs = None
+                if isinstance(refs, str) and refs.startswith('pkg:') and not self._is_pkg_class(refs):
+                    refs = None         # an expression that merely starts with a package name (REGISTRY.types): its value decides
+                if isinstance(refs, tuple) and any(isinstance(r, str) and r.startswith('pkg:') and not self._is_pkg_class(r) for r in refs):
+                    refs = None
                 if refs is None or (isinstance(refs, tuple) and any(r is None for r in refs)):
                     refs = self._class_refs(args[1])
                 if self.isinstance_fn is None or not isinstance(args[0], (Rec, PyModel, Ref, Opaque, LambdaVal, BoundMethod)):
@@ -1457,6 +1492,9 @@ class Interp:
         if isinstance(callee, Ref):
             if callee.ref in self.call_models:
                 return self.call_models[callee.ref](*args)
+            done_, res_ = self._unbound_builtin(callee.ref, list(args), kwargs)
+            if done_:
+                return res_
             if callee.ref in ('builtin:bool', 'builtin:int', 'builtin:float', 'builtin:str', 'builtin:len', 'builtin:abs'):
                 fn_ = {'bool': bool, 'int': int, 'float': float, 'str': str, 'len': len, 'abs': abs}[callee.ref.split(':')[1]]
                 if fn_ is bool and args and isinstance(args[0], Rec):
@@ -1604,6 +1642,56 @@ class Interp:
         self.world.funcobjs[ref] = cur
         return cur
 
+    def _unbound_builtin(self, ref, args, kwargs):
+        """(done, value): `dict.__setitem__(obj, k, v)`, `list.append(obj, x)`, `str.upper(s)` - a method of a builtin type called
+        through the type, on a native value or on an instance of a package class that subclasses the builtin."""
+        if not isinstance(ref, str) or not ref.startswith('builtin:') or ref.count('.') != 1 or not args:
+            return False, None
+        tname, _, mname = ref[8:].partition('.')
+        typ = {'dict': dict, 'list': list, 'set': set, 'tuple': tuple, 'str': str, 'frozenset': frozenset}.get(tname)
+        if typ is None or not hasattr(typ, mname):
+            return False, None
+        target = args[0]
+        if isinstance(target, Rec) and '__native__' in target.f:
+            if mname == '__init__':
+                target.f['__native__'].clear()
+            target = target.f['__native__']
+        if not isinstance(target, typ):
+            return False, None
+        rest = list(args[1:])
+        if not all(_concrete(a_) or isinstance(a_, (Rec, Ref)) for a_ in rest):
+            return False, None
+        try:
+            res = getattr(typ, mname)(target, *rest, **kwargs)
+        except (KeyError, IndexError, ValueError, TypeError) as exc:
+            raise ExcRaised(Ref(f'builtin:{type(exc).__name__}'))
+        if mname in ('items', 'keys', 'values'):
+            res = list(res)
+        return True, res
+
+    def _class_callable(self, cref, name):
+        """A class attribute that is not a `def` but evaluates to a function value (`__add__ = _arithmetic(operator.add)`,
+        `__lt__ = functools.partialmethod(...)`-like tables): usable as a method. Evaluated once per world, in module scope."""
+        cache = self.world.__dict__.setdefault('class_callables', {})
+        key = (cref, name)
+        if key in cache:
+            return cache[key]
+        cache[key] = None
+        cm, node = self.a.res.class_attr(cref, name)
+        if isinstance(node, ast.Name) and node.id != name and self.a.res.class_attr(cref, node.id)[1] is not None:
+            cache[key] = self._class_callable(cref, node.id)        # `__radd__ = __add__`
+            return cache[key]
+        if isinstance(node, (ast.Call, ast.Lambda, ast.Subscript, ast.Attribute)):
+            try:
+                v = Interp(self.a, cm, {}, world=self.world, call_models=self.call_models, isinstance_fn=self.isinstance_fn, inline_pkg=True,
+                           depth=self.depth + 1).ev(node)
+            except (Unmodelled, ExcRaised):
+                v = None
+            fn_ref = isinstance(v, Ref) and isinstance(self.a.res.lookup(v.ref)[1], ast.FunctionDef)
+            if isinstance(v, (Closure, LambdaVal, RawFunc, Partial, LruCache)) or fn_ref:
+                cache[key] = v
+        return cache[key]
+
     def _dunder(self, recv, name, *args):
         """(found, value): call the special method `name` of the abstract instance recv, when its class defines it."""
         cref = recv.f.get('cls') if isinstance(recv, Rec) else None
@@ -1614,6 +1702,9 @@ class Interp:
             return True, self.call_models[key_](recv, *args)
         cm, meth = self._find_method(cref, name)
         if meth is None:
+            made_ = self._class_callable(cref, name)
+            if made_ is not None:
+                return True, self.invoke(made_, [recv] + list(args), {})
             if '__native__' in recv.f and name in ('__getitem__', '__setitem__', '__delitem__', '__contains__', '__len__', '__iter__'):
                 native_ = recv.f['__native__']
                 try:
@@ -2114,6 +2205,33 @@ class Interp:
                 finally:
                     val.__exit__(None, None, None)
                 return
+            if isinstance(val, _Suppress):
+                try:
+                    if item.optional_vars is not None:
+                        self.store(item.optional_vars, None)
+                    self._with(s, i + 1)
+                except ExcRaised as r_:
+                    if not any(self._exc_is(r_.exc, c_) for c_ in val.classes):
+                        raise
+                return
+            if isinstance(val, Rec) and isinstance(val.f.get('cls'), str) and self._find_method(val.f['cls'], '__exit__')[1] is not None:
+                # the context-manager protocol of a package class: __enter__, the body, __exit__ on every way out
+                found_, entered = self._dunder(val, '__enter__')
+                if item.optional_vars is not None:
+                    self.store(item.optional_vars, entered if found_ else val)
+                try:
+                    self._with(s, i + 1)
+                except ExcRaised as r_:
+                    exc_ = r_.exc
+                    _, swallow = self._dunder(val, '__exit__', self._type_of(exc_) if isinstance(exc_, (Ref, Rec)) else None, exc_, Opaque('traceback'))
+                    if not self.truth(swallow) if not isinstance(swallow, (Opaque,)) else True:
+                        raise
+                    return
+                except (_Return, _Break, _Continue):
+                    self._dunder(val, '__exit__', None, None, None)
+                    raise
+                self._dunder(val, '__exit__', None, None, None)
+                return
             if item.optional_vars is not None:
                 self.store(item.optional_vars, val)
             self._with(s, i + 1)
@@ -2589,6 +2707,13 @@ def _signature_of(self, func):
 Interp._effective_decorators = _effective_decorators
 Interp._func_object = _func_object
 Interp._signature_of = _signature_of
+
+
+class _Suppress(PyModel):
+    """contextlib.suppress(*exception classes)"""
+
+    def __init__(self, classes):
+        self.classes = tuple(classes)
 
 
 class _LruFactory(PyModel):
